@@ -116,6 +116,7 @@ def gen_struct(rng, depth, family_only=False, with_name=True):
             t = gen_struct(rng, depth - 1, family_only, with_name=rng.random() < 0.5)
         elif family_only:
             t = dict(k="named", name=rng.choice(["Extras", "Inner", "Other"]))
+            nm = t["name"]           # a named struct type must also match the block type: field name = type name
         else:
             t = rng.choice([dict(k=rng.choice(OTHERS)), dict(k="iface"), dict(k="ifaceN"), dict(k="ptr", elem=rng.choice(SCALARS)),
                             dict(k="ptr", elem=dict(k="named", name="Inner")), dict(k="slice", elem=INT),
